@@ -65,7 +65,7 @@ fn params(tier: Tier) -> (usize, usize, usize) {
     if tier.is_quick() {
         (2, 6, 100000)
     } else {
-        (3, 7, 400000)
+        (3, 7, 120000)
     }
 }
 
